@@ -173,6 +173,13 @@ void profile_unknown(const json& plan, Ctx& ctx) {
 	ctx.probe("unknown_blocks_present");
 	if (sel.count(p0.typeIdx[0])) ctx.probe("root_relabelled");
 	if (jbool(plan, "queries", false)) { setStage("queries"); ctx.hist.u64(batteryDigest(*nif, ctx, 1)); }
+	if (plan.contains("edits")) {
+		// edits that are permitted on a model with unknown blocks (renames, texture paths, added nodes / extra data): the
+		// string indices that existed in the input must keep denoting their strings
+		setStage("edits");
+		for (auto& e : plan["edits"])
+			if (applyEdit(*nif, e, ctx)) { ctx.sig.str(jstr(e, "op")); ctx.probe("edited_with_unknown_blocks_present"); }
+	}
 	std::string via = jstr(plan, "via", "");
 	if (via == "copy" || via == "assign") {
 		// the model travels through a copy before it is saved (the unknown blocks must survive that too)
